@@ -22,6 +22,11 @@ CHECKS = {
         technique="runtime reference-model monitor: conversion replies of the real evaluator vs exact values from the dumped unit table; conformance-error suggestions checked by following them with an independent dimension algebra",
         text="Thorough enumerates every ordered pair of conformable database units (about 5.6e5) plus mismatching and reciprocal pairs, prefixed/plural names and random compound sources/targets with constants and inline definitions; each reply must be the exact ratio (and convert back to 1), or a conformance error whose suggestion makes the sides conformable. Quick covers every class and every unit with sampled partners.",
         note="Unit values come from the loaded database (C08); float-valued units are judged on refusal only; names that are timezone names or conversion keywords are skipped as targets."),
+    "C04": dict(
+        category="exploration", design_ref="DESIGN.md §2 C04",
+        technique="runtime event monitor: hostile inputs driven through the real lexer/parser/evaluator/renderers on long-lived contexts under a panic hook, overflow checks and per-request watchdogs; process-level observation of the release `rink -f -` binary",
+        text="Grammar-directed queries with boundary integers in every numeric position, token soup, mutations of a corpus from the manual and tests, and raw Unicode incl. nesting stress, in histories of 200 on long-lived contexts with text, span-tree and JSON rendering and a health query after each history; any panic (by site), process death, or watchdog expiry on a cheap input is a violation. Holds for the inputs generated, not for all strings.",
+        note="Cheap/expensive is a conservative lexical rule (stated in the evidence); expensive inputs that exceed the watchdog are inconclusive; the probe profile (opt-level 1, overflow checks on) differs from the release profile, which is exercised by the CLI slice."),
     "C05": dict(
         category="exploration", design_ref="DESIGN.md §2 C05",
         technique="runtime monitor: independent numeral reader re-reads every printed numeral (Numeric::to_string and query replies) and compares with the exact rational",
